@@ -48,6 +48,14 @@ checks.append(check("C17", "sys17", "6/C17",
     "syscall oracle: histories of calls over syscall / named_syscall / register_named_system + named_syscall_direct / spawn_system + spawned_syscall / Commands::syscall / Commands::spawned_syscall with nesting and command-issued calls; a key -> count model predicts every return value, the order of every queued-command effect visible on return, and every error",
     "property-based testing: proptest-generated call histories, reference model oracle, shrinking, JSON replay",
     "exploration only; re-entering a running syscall/named key is never generated (documented as unsupported)"))
+checks.append(check("C10", "rc10", "6/C10",
+    "reference-count oracle: histories of prepare / clone / drop / garbage-collect / app.update / manual-despawn / spawn-child / reparent operations plus worker-thread drops; after every operation the set of live entities equals the count model (collected exactly when the last clone is gone, with descendants; never earlier; collections idempotent)",
+    "property-based testing: proptest-generated operation histories (incl. OS-thread drop schedules), reference-count model oracle, shrinking, JSON replay",
+    "exploration only; thread interleavings are sampled by the OS scheduler, not enumerated (the checked invariants are schedule independent)"))
+checks.append(check("C16", "wr16", "6/C16",
+    "world-reactor oracle: histories of add / remove (partial, full, spanning entities) / run / trigger / despawn over two WorldReactors with dynamic bundles, one with starting triggers and three EntityWorldReactors; per window between settles the multiset of runs (reactor, readings, local entity + tag) equals the key-table model; per-entity run counters in the local data and per-reactor Locals are continuous; local data exists exactly while the entity lives and keeps a trigger; number of system commands constant",
+    "property-based testing: proptest-generated operation histories, reference model oracle, shrinking, JSON replay",
+    "exploration only; uses hook helpers verif_has_entity_world_local / verif_system_commands as read-only observers"))
 checks.sort(key=lambda c: c["property_id"])
 
 ALL = [f"C{i:02d}" for i in range(1, 19)]
@@ -76,6 +84,8 @@ manifest = {
  "engines": [
    {"name": "acc14", "path": "/verif/harness/src/acc14.rs", "serves_properties": ["C14"], "kind_free_text": "accessor call histories vs value/liveness model, probe reactors"},
    {"name": "sys17", "path": "/verif/harness/src/sys17.rs", "serves_properties": ["C17"], "kind_free_text": "syscall-family call histories vs key->count model"},
+   {"name": "rc10", "path": "/verif/harness/src/rc10.rs", "serves_properties": ["C10"], "kind_free_text": "auto-despawn signal histories (with worker threads) vs reference-count model"},
+   {"name": "wr16", "path": "/verif/harness/src/wr16.rs", "serves_properties": ["C16"], "kind_free_text": "world reactor / entity world reactor histories vs key-table model"},
    {"name": "tree", "path": "/verif/harness/src/{program,exec,model,tree}.rs", "serves_properties": sorted(TREE.keys()),
     "kind_free_text": "generated world-mode programs over a small closed universe, executed against the real crate; one totally ordered trace of harness markers + hook events; reference model rebuilt from applied ops/facts; per-property oracles"},
  ],
